@@ -6,7 +6,7 @@ import gen, lang, tv
 from clif import PathCut
 
 # one scratch directory per checking process (several checks may run at the same time)
-WORK = os.path.join(os.path.dirname(os.path.dirname(os.path.abspath(__file__))), "build", "tv", f"w{os.getpid()}")
+WORK = os.path.join(os.environ.get("VERIF_BUILD") or os.path.join(os.path.dirname(os.path.dirname(os.path.abspath(__file__))), "build"), "tv", f"w{os.getpid()}")
 
 _PROGS = {}
 _OWNER = os.getpid()
@@ -184,7 +184,7 @@ def confirm(prog, script, finding):
             p = e.split()
             if p[0] == "call":
                 got.append(p[1] + " " + " ".join(p[3:] if p[1] in ("eat", "peek") else p[2:]))
-            elif p[0].startswith(("emit", "pure")):
+            elif p[0].startswith(("emit", "pure", "msub")):
                 got.append(e)
         return want != got, {"want": want, "got": got}
     return False, {}
